@@ -277,7 +277,10 @@ func (s *state) walk(node ast.Node) {
 }
 
 func (s *state) visitSoyFile(node *ast.SoyFileNode) {
-	s.jsln("// This file was automatically generated from ", node.Name, ".")
+	// (the name is written into a line comment: a line terminator in it would end
+	// the comment, and the rest of the name would be code.)
+	var name = strings.NewReplacer("\n", " ", "\r", " ", "\u2028", " ", "\u2029", " ").Replace(node.Name)
+	s.jsln("// This file was automatically generated from ", name, ".")
 	s.jsln("// Please don't edit this file by hand.")
 	s.jsln("")
 	for _, child := range node.Children() {
